@@ -13,6 +13,8 @@ CONSTANTS
   NodeCounts = @@NODES@@
   LockKeys = @@KEYS@@
   Variants = @@VARIANTS@@
+  MaxReRel = @@RR@@
+  Slacks = @@SLACKS@@
   FixedKinds = @@FIXED@@
   WithRelease = @@REL@@
   Emit = @@EMIT@@
